@@ -19,13 +19,22 @@ def gen_params(rng, tier):
     spec = gen.gen_spec(rng, rng.randint(0, 3))
     g = lambda n: [[d, w] for d, w in gen.gen_stream(rng, spec, rng.randint(0, n), gate_rate=0.05)]  # noqa: E731
     return {"spec": spec, "sa": g(7) if rng.random() < 0.85 else [], "sb": g(7) if rng.random() < 0.9 else [],
-            "cb": g(4), "ca": g(4)}
+            "cb": g(4), "ca": g(4), "rev_b": rng.random() < 0.5}
 
 
 def build(p):
     spec = p["spec"]
     S = lambda k: [(r[0], r[1]) for r in p[k]]  # noqa: E731
-    ops = [("new", "a", spec), ("fills", "a", S("sa")), ("new", "b", spec), ("fills", "b", S("sb")),
+    spec_b = spec
+    if p.get("rev_b"):
+        # b is the same tree with the members of every Label / UntypedLabel given in the opposite order
+        import copy
+
+        spec_b = copy.deepcopy(spec)
+        for node in gen.walk(spec_b):
+            if node["k"] in ("Label", "UntypedLabel"):
+                node["order"] = "rev"
+    ops = [("new", "a", spec), ("fills", "a", S("sa")), ("new", "b", spec_b), ("fills", "b", S("sb")),
            ("add", "s", "a", "b"), ("snap", "b0", "b")]
     expect = []
     ops.append(("iadd", "a", "b"))
